@@ -25,6 +25,7 @@ resolution of choices Python leaves unspecified; the model validates them).
 from __future__ import annotations
 
 import fcntl
+import gc
 import hashlib
 import importlib
 import json
@@ -375,13 +376,16 @@ def correspondence(ctx, prop, model_mod, scenarios, label):
         except Exception:       # noqa  (coverage is a convenience: never a reason to fail)
             cov = None
     try:
-        for lines in scenarios:
+        for n, lines in enumerate(scenarios):
             try:
                 obs, hs = run_impl_guarded(model_mod, lines)
             except Timeout:
                 obs, hs = ['hang'], []
             impl_obs.append(obs)
             hints.append(hs)
+            if n % 100 == 99:
+                # scenarios define classes; collect them so that subclass registries do not grow
+                gc.collect()
     finally:
         if cov is not None:
             cov.stop()
